@@ -499,7 +499,9 @@ theorem pendDF_runFrame (p : Prog) (hh : Hist) {s : St} {f : Frame} (h : PendDF 
     · exact pendD_gen h nopend0 (fun _ => rfl) rfl (fs := []) rfl noPend_nil
     · split
       · rename_i e ex work _
-        exact pendD_gen h nopend0 (by trkD) (by simp [St.push]) (fs := [.despawnWork work]) (by simp [St.push]) (noPend_of_empty rfl)
+        split
+        · exact pendD_gen h nopend0 (by trkD) (by simp [St.push]) (fs := [.despawnWork work]) (by simp [St.push]) (noPend_of_empty rfl)
+        · exact pendD_gen h nopend0 (by trkD) rfl (fs := [.flush, .despawnWork _]) rfl (noPend_of_empty rfl)
       · split
         · exact pendD_gen h nopend0 (by trkD) rfl (fs := [.despawnWork _]) rfl (noPend_of_empty rfl)
         · exact pendD_gen h nopend0 (by trkD) rfl (fs := [.despawnWork _]) rfl (noPend_of_empty rfl)
